@@ -37,6 +37,12 @@ def templates(cfg):
         lambda p, t: t >> p.mutate(s=t.b.sum(partition_by=t.g), m=t.b.max()),
         lambda p, t: t >> p.mutate(s=t.b.sum(partition_by=t.g)) >> p.mutate(m=t.b.max()),
     )
+    # partition_by= vs group_by around an aggregate that is nested in an expression, after a slice
+    T(
+        "nested_window_after_slice",
+        lambda p, t: t >> p.arrange(t.a.nulls_last(), t.b.nulls_last(), t.g.nulls_last()) >> p.slice_head(2) >> p.alias("z") >> p.mutate(d=p.C.b - p.C.b.max(partition_by=p.C.g)),
+        lambda p, t: t >> p.arrange(t.a.nulls_last(), t.b.nulls_last(), t.g.nulls_last()) >> p.slice_head(2) >> p.alias("z") >> p.group_by(p.C.g) >> p.mutate(d=p.C.b - p.C.b.max()) >> p.ungroup(),
+    )
     T(
         "filter_split",
         lambda p, t: t >> p.filter(t.a > 0, t.b < 3, t.g != 1),
